@@ -16,7 +16,7 @@ for d in sys.argv[1:]:
     finally:
         subprocess.run(["git", "-C", "/repo", "checkout", "--", "."])
         subprocess.run(["git", "-C", "/repo", "clean", "-fdq", "pkg"])
-    hits = re.findall(r"^(VIOLATED|UNDECIDED): (\S+?)\.(\S+) site=(.*?) at (\S+): (.*)$", out, re.M)
+    hits = re.findall(r"^(VIOLATED|UNDECIDED): (\S+?)\.(\S+) site=(.*?) at (\S*): (.*)$", out, re.M)
     if not hits:
         print(name, "silent")
     for k, p, r, s, pos, why in hits:
